@@ -85,7 +85,9 @@ def differs(a, b):
         # floats are reals here, but sub-computations on concrete values are carried out in binary64 by the code under analysis:
         # differences within a relative 1e-9 are rounding, not behaviour (the concrete replay uses the same tolerance)
         x, y = symx.term(sa, real=True), symx.term(sb, real=True)
-        d = x - y
+        d = z3.simplify(x - y, som=True)
+        if z3.is_rational_value(d) and d.numerator_as_long() == 0:
+            return z3.BoolVal(False)          # the two terms are the same polynomial
         tol = z3.RealVal("1/1000000000") * (1 + z3.If(x >= 0, x, -x))
         return z3.Or(d > tol, -d > tol)
     return sa.e != sb.e
